@@ -308,12 +308,14 @@ func c02Tiny(o *cli.Opts, run *evid.Run) {
 				run.Violate(key+"/H", fmt.Sprintf("F47 deletion gadget accepted=%v but the specification says valid=%v (class %s)", res.Accepted, c.Valid, j.class), c.Describe())
 			}
 			run.Case("f47/"+j.class, true, c.Sig(), res.Accepted, c.Describe())
-			// odometer: depth 1 batch 1 = 2 index digits + 1 is-zero inverse = 47^3 points per input
+			// odometer: every hint output wire of the compiled system for this input (depth 1 batch 1: 2 index digits +
+			// 1 is-zero inverse = 47^3 points), discovered by an honest solve; at most 3 wires are enumerated
 			if dm.b == 1 && dm.d == 1 && j.k < o.Pick(2, 12) {
+				all := discoverHintWires(sys, delGadgetAssign(c))
+				chosen := chooseWires(all, 3)
 				accepted := 0
-				odometer(3, func(vals []int64) bool {
-					h := rmon.Hints{rmon.NBitsID: fixedNBits([]int64{vals[0], vals[1]}), rmon.InvZeroID: fixedInvZero(vals[2])}
-					if sys.Solve(delGadgetAssign(c), h).Accepted {
+				odometer(len(chosen), func(vals []int64) bool {
+					if sys.Solve(delGadgetAssign(c), odometerHints(chosen, vals)).Accepted {
 						accepted++
 						if !c.Valid {
 							run.Violate(fmt.Sprintf("%s/odometer/%v", key, vals), fmt.Sprintf("F47 deletion gadget accepts an invalid input with hint outputs %v", vals), c.Describe())
@@ -326,6 +328,10 @@ func c02Tiny(o *cli.Opts, run *evid.Run) {
 					run.Violate(key+"/odometer", "no hint assignment makes the F47 gadget accept a valid input", c.Describe())
 				}
 				run.Add("f47_odometer_inputs_exhausted", 1)
+				if len(all) == len(chosen) {
+					run.Add("f47_odometer_inputs_fully_enumerated", 1)
+				}
+				run.Max("f47_hint_wires_per_input", len(all))
 			}
 		})
 	}
